@@ -527,16 +527,31 @@ func (x *c12) gpp() {
 	}
 	if fDec64 != nil && fDecB != nil {
 		lBytes := x.label(fDecB)
+		// GPPPDecryptBytes may itself be a thin wrapper `return h(fresh buffer, ciphertext)` around
+		// the shared decryption body h; the base64 variant may then call h directly
+		labels := []string{lBytes}
+		if h := c12TailDelegate(fDecB); h != nil {
+			labels = append(labels, x.label(h))
+		}
 		name := x.P.FuncName(fDec64)
 		for _, ret := range cryptoSuccessReturns(fDec64) {
-			set := x.e.Prov(fDec64, ret.Results[0])
-			bad, und := judge(set, []need{{what: "the base64 argument", src: isParam(0),
-				must:  []string{"(*encoding/base64.Encoding).DecodeString", lBytes},
-				allow: []string{"strings.Repeat", "len", "slice[:?]"}}},
-				func(o flow.Origin) bool {
-					return constsOnly(o) || (o.Src.Kind == flow.SGlobal && o.Src.Name == "encoding/base64.StdEncoding")
-				})
-			x.verdict(c12R2, name+": result = GPPPDecryptBytes(base64.StdEncoding.DecodeString(·))", ret.Pos(), bad, und, trim(set.String(), 200))
+			var bad, und, shown string
+			for i, lb := range labels {
+				set := x.e.Prov(fDec64, ret.Results[0])
+				b, u := judge(set, []need{{what: "the base64 argument", src: isParam(0),
+					must:  []string{"(*encoding/base64.Encoding).DecodeString", lb},
+					allow: []string{"strings.Repeat", "len", "slice[:?]"}}},
+					func(o flow.Origin) bool {
+						return constsOnly(o) || (o.Src.Kind == flow.SGlobal && o.Src.Name == "encoding/base64.StdEncoding")
+					})
+				if i == 0 || (b == "" && u == "") {
+					bad, und, shown = b, u, trim(set.String(), 200)
+				}
+				if b == "" && u == "" {
+					break
+				}
+			}
+			x.verdict(c12R2, name+": result = GPPPDecryptBytes(base64.StdEncoding.DecodeString(·))", ret.Pos(), bad, und, shown)
 		}
 	}
 }
@@ -889,4 +904,33 @@ func loadedGlobal(v ssa.Value) *ssa.Global {
 		}
 	}
 	return nil
+}
+
+// c12TailDelegate: fn's only success return forwards the results of one static
+// call to an in-module function of the same package; returns that function.
+func c12TailDelegate(fn *ssa.Function) *ssa.Function {
+	var h *ssa.Function
+	for _, b := range fn.Blocks {
+		ret, ok := b.Instrs[len(b.Instrs)-1].(*ssa.Return)
+		if !ok || len(ret.Results) == 0 {
+			continue
+		}
+		ex, ok := ret.Results[0].(*ssa.Extract)
+		if !ok {
+			return nil
+		}
+		call, ok := ex.Tuple.(*ssa.Call)
+		if !ok {
+			return nil
+		}
+		g := call.Call.StaticCallee()
+		if g == nil || g.Blocks == nil || g.Pkg != fn.Pkg {
+			return nil
+		}
+		if h != nil && h != g {
+			return nil
+		}
+		h = g
+	}
+	return h
 }
